@@ -74,7 +74,7 @@ fn main() {
 pub fn print_gen_sizes() {
     for d in 1..=3 {
         for lc in [false, true] {
-            let g = gen::Gen::new(gen::Opts { depth: d, max_programs: u64::MAX, multi_template: false, loop_controls: lc });
+            let g = gen::Gen::new(gen::Opts { depth: d, max_programs: u64::MAX, multi_template: false, loop_controls: lc, extra_leaves: false });
             println!("depth {} loop_controls {} size {}", d, lc, g.size());
         }
     }
